@@ -326,6 +326,8 @@ func runC04(c *hc.Ctx) error {
 	// component level, as for C01: "nothing is lost" depends on what spike removal keeps
 	chainStream(c, 3, c.N(10, 12), 0, true, false)
 	chainStream(c, 4, c.N(8, 9), 0, true, false)
+	// "holes stay holes, parts stay parts" depends on ring matching: matchInnersToPolygons / ringContains / dedupe / split
+	componentStream(c)
 	return nil
 }
 
